@@ -335,7 +335,7 @@ def main(argv):
         classes = dict(top[:60])
         classes["(other classes)"] = sum(n for _, n in top[60:])
     wall = time.time() - t0
-    status = "held"
+    status = "held" if not known_hits else "held apart from %d listed known finding(s)" % len(known_hits)
     rc = 0
     incl_frac = len(inconclusive) / max(1, total)
     if uncovered:
